@@ -1,9 +1,10 @@
-(* C11 — ids: pickle ids are consecutive from the counter, references resolve, the counter of a
-   stream never goes back.  (Canonical numbering of AST nodes: by correspondence and by the
-   generator's independent numbering; DESIGN 6.C11.) *)
+(* C11 — ids: the ids of one accepted source (AST and pickles) are pairwise distinct and all drawn during its
+   processing; pickle ids are consecutive from the counter, references resolve, the counter of a stream never goes
+   back.  (That the AST numbering is dense and in the canonical order: by correspondence and by the generator's
+   independent numbering; DESIGN 6.C11.) *)
 From Coq Require Import List Bool Arith.
 Import ListNotations.
-Require Import Kinds PyStr Line Matcher Ast Builder Compiler CompilerSpec Pipeline PipelineFacts Stream StreamFacts.
+Require Import Kinds PyStr Line Matcher Ast Builder Compiler CompilerSpec Pipeline PipelineFacts Stream StreamFacts AstIds.
 
 (* pickle steps before their pickle, consecutively, no gaps, from the counter's value *)
 Theorem C11_compile_ids : forall uri d idc ps i, compile uri d idc = Some (ps, i) ->
@@ -34,3 +35,17 @@ Theorem C11_parse_counter : forall stop m b src, wf_ms m ->
   match state_after (parse_source stop m b src) with Some (_, b') => b_idc b <= b_idc b' | None => True end.
 Proof. exact parse_source_counter. Qed.
 Print Assumptions C11_parse_counter.
+
+(* every id in the AST of an accepted document was drawn during this parse, and no two nodes share one
+   (builder-stack invariant: transform_node never uses a child twice; fresh ids exceed all earlier ones) *)
+Theorem C11_ast_ids : forall stop m b src d m1 b1 n, parse_source stop m b src = POk d m1 b1 n ->
+  b_idc b <= b_idc b1 /\ NoDup (doc_ids d) /\ Forall (fun x => b_idc b <= x < b_idc b1) (doc_ids d).
+Proof. exact ast_ids. Qed.
+Print Assumptions C11_ast_ids.
+
+(* AST ids and pickle ids of one source, together: pairwise distinct, between the counter before and after *)
+Theorem C11_distinct : forall stop m b src d m1 b1 n uri ps i,
+  parse_source stop m b src = POk d m1 b1 n -> compile uri d (b_idc b1) = Some (ps, i) ->
+  NoDup (doc_ids d ++ flat_map pickle_ids ps) /\ Forall (fun x => b_idc b <= x < i) (doc_ids d ++ flat_map pickle_ids ps).
+Proof. exact source_ids_distinct. Qed.
+Print Assumptions C11_distinct.
